@@ -28,7 +28,7 @@ FrameCodecs == {"H264", "H265", "AV1", "VP8", "VP9", "MPEG4Video", "KLV"}
 \* codecs for which the harness can produce incoming RTP packets larger than M
 OversizeCodecs == {"H264", "H265", "AV1", "VP8", "VP9", "MPEG4Video", "MPEG4Audio", "KLV"}
 
-Ms == {200, 1440, 1460}
+CONSTANT Ms          \* configured maximum payload sizes, e.g. {200, 1440, 1460}
 Branches == {"nonrtp", "remux", "oversize"}
 BranchOK(codec, b) == CASE b = "nonrtp" -> TRUE
                         [] b = "remux" -> codec = "H264"          \* packetization-mode 0 forces remuxing
@@ -57,14 +57,14 @@ Sequences(codec) ==
     \cup {<<"3m", "half">>, <<"m+1", "m">>}
 
 \* ------------------------------------------------------------------ layer 2, over an observed unit
-\* u = [m, generated, uniform, pkts: <<[len, seq, tsoff]>>, psig, dsig]
+\* u = [m, uniform, pkts: <<[len, seq, tsoff]>>, psig, dsig, derrs]
 Fits(u)        == \A i \in DOMAIN u.pkts : u.pkts[i].len <= u.m
 Consecutive(u) == \A i \in 1..(Len(u.pkts) - 1) : u.pkts[i + 1].seq = (u.pkts[i].seq + 1) % 65536
 \* tsoff = (packet timestamp - unit timestamp) mod 2^32, as a decimal string; off: the run's offset
 TimestampOK(u, off) ==
     /\ Len(u.pkts) >= 1 => u.pkts[1].tsoff = off
     /\ u.uniform => \A i \in DOMAIN u.pkts : u.pkts[i].tsoff = off
-Lossless(u)    == u.dsig = u.psig
+Lossless(u)    == u.dsig = u.psig /\ u.derrs = <<>>
 
 \* ------------------------------------------------------------------ generator: one state per (codec, branch)
 VARIABLES codec, branch
